@@ -540,10 +540,10 @@ class FormatContext(object):
         """Returns the number of bytes needed to reproduce this context in an
         IRC string."""
         prefix_size = self.bold + self.reverse + self.underline + \
-                bool(self.fg) + bool(self.bg)
-        if self.fg and self.bg:
+                (self.fg is not None) + (self.bg is not None)
+        if self.bg is not None:
             prefix_size += 6 # '\x03xx,yy%s'
-        elif self.fg or self.bg:
+        elif self.fg is not None:
             prefix_size += 3 # '\x03xx%s'
         if prefix_size:
             return prefix_size + 1 # '\x0f'
